@@ -142,6 +142,11 @@ func genC01(tier string, seed uint64) []genOut {
 		rep, comp, mc, _ := batchFeatures(docs, m)
 		out = append(out, genOut{cb.c, rep || comp || mc, class})
 	}
+	na := 3
+	if tier == "thorough" {
+		na = 24
+	}
+	out = append(out, genAdaptiveBuild("C01", seed, na)...)
 	return out
 }
 
@@ -254,6 +259,12 @@ func genC02(tier string, seed uint64) []genOut {
 		nt := cb.n[final] > 0 && len(cb.c.Segs[final].Ins) > 1
 		out = append(out, genOut{cb.c, nt, class})
 	}
+	na := 3
+	if tier == "thorough" {
+		na = 24
+	}
+	out = append(out, genAdaptiveMerge("C02", seed, na, true)...)
+	out = append(out, genCopyPath("C02", seed, na)...)
 	return out
 }
 
@@ -288,6 +299,12 @@ func genC03(tier string, seed uint64) []genOut {
 		}
 		out = append(out, genOut{cb.c, hasDrop, class})
 	}
+	na := 2
+	if tier == "thorough" {
+		na = 12
+	}
+	out = append(out, genAdaptiveMerge("C03", seed, na, false)...)
+	out = append(out, genCopyPath("C03", seed, na)...)
 	return out
 }
 
@@ -454,6 +471,12 @@ func genC05(tier string, seed uint64) []genOut {
 		}
 		out = append(out, genOut{cb.c, adv && excl && (mc || class != "tiny"), class})
 	}
+	na := 2
+	if tier == "thorough" {
+		na = 16
+	}
+	out = append(out, genAdaptiveBuild("C05", seed, na)...)
+	out = append(out, genAdaptiveMerge("C05", seed, na, false)...)
 	return out
 }
 
@@ -528,6 +551,11 @@ func genC06(tier string, seed uint64) []genOut {
 		}
 		out = append(out, genOut{cb.c, true, "capsweep"})
 	}
+	ncp := 6
+	if tier == "thorough" {
+		ncp = 60
+	}
+	out = append(out, genCopyPath("C06", seed, ncp)...)
 	return out
 }
 
@@ -904,6 +932,183 @@ func genC17(tier string, seed uint64) []genOut {
 			cb.q("count", itoa(v))
 		}
 		out = append(out, genOut{cb.c, cb.n[flat] > 0 && k >= 3, class})
+	}
+	return out
+}
+
+// ---------- targeted families ----------
+
+// adaptiveBatch: many small documents in which a few terms occur in (nearly) every document,
+// often through repeated field instances - the inputs on which the adaptive chunk mode
+// (chunkSize = numDocs / (cardinality/1024 + 1)) has more than one chunk and on which term
+// occurrences, cardinalities before / after deletion and document counts all differ.
+func (cb *caseBuilder) adaptiveBatch(n int, idPrefix string) []Doc {
+	r := cb.r
+	docs := make([]Doc, n)
+	fname := []byte("t")
+	px := r.Range(6, 10)
+	py := r.Range(1, 5)
+	for i := range docs {
+		var d Doc
+		d = append(d, FieldInst{Name: []byte("_id"), Length: 1, Store: true, Value: []byte(fmt.Sprintf("%s%d", idPrefix, i)),
+			Terms: []TermOcc{{Term: []byte(fmt.Sprintf("%s%d", idPrefix, i)), Freq: 1}}})
+		k := r.Range(1, 3)
+		for j := 0; j < k; j++ {
+			f := FieldInst{Name: fname}
+			if r.Chance(px, 10) {
+				t := TermOcc{Term: []byte("x"), Freq: 1 + i%7}
+				if r.Chance(1, 2) {
+					t.Locs = []Loc{{Pos: i % 50, Start: j, End: j + 1}}
+				}
+				f.Terms = append(f.Terms, t)
+				f.Length += t.Freq
+			}
+			if r.Chance(py, 10) {
+				t := TermOcc{Term: []byte("y"), Freq: 1}
+				f.Terms = append(f.Terms, t)
+				f.Length++
+			}
+			d = append(d, f)
+		}
+		docs[i] = d
+	}
+	return docs
+}
+
+func adaptiveN(r *Rng) int {
+	switch r.Intn(4) {
+	case 0:
+		return r.Range(520, 700)
+	case 1:
+		return r.Range(1020, 1130)
+	case 2:
+		return r.Range(2040, 2200)
+	default:
+		return r.Range(1100, 2300)
+	}
+}
+
+func (cb *caseBuilder) adaptiveQueries(sg int) {
+	ss := itoa(sg)
+	n := cb.n[sg]
+	cb.q("count", ss)
+	for _, t := range []string{"78", "79", "7a"} {
+		cb.q("iter", ss, "74", t, "~", "111", "w")
+		cb.q("iter", ss, "74", t, "~", "110", "a"+itoa(n/2), "n", "n", "a"+itoa(n/2+n/4), "w")
+	}
+	cb.q("dict", ss, "74", "~", "~", "any")
+	cb.q("stats", ss, "74")
+	e := cb.genExcept(n)
+	cb.q("iter", ss, "74", "78", e, "111", "n", "a"+itoa(n/3), "n", "a"+itoa(n/2+1), "n", "n", "a"+itoa(n-3), "w")
+	for _, d := range cb.sampleDocs(n, 12) {
+		cb.q("stored", ss, itoa(d), "-1")
+	}
+}
+
+func genAdaptiveBuild(prop string, seed uint64, count int) []genOut {
+	var out []genOut
+	for i := 0; i < count; i++ {
+		r := NewRng(seed, prop+"-adaptive", uint64(i))
+		cb := newCaseBuilder(caseID(prop+"ad", seed, i), r)
+		cb.u.fields = [][]byte{[]byte("_id"), []byte("t")}
+		docs := cb.adaptiveBatch(adaptiveN(r), "d")
+		api := "pub"
+		if r.Chance(1, 3) {
+			api = "hook"
+		}
+		sg := cb.addBuild(docs, 1025, api)
+		cb.adaptiveQueries(sg)
+		out = append(out, genOut{cb.c, true, "adaptive"})
+	}
+	return out
+}
+
+func genAdaptiveMerge(prop string, seed uint64, count int, withRebuild bool) []genOut {
+	var out []genOut
+	for i := 0; i < count; i++ {
+		r := NewRng(seed, prop+"-adaptive-merge", uint64(i))
+		cb := newCaseBuilder(caseID(prop+"adm", seed, i), r)
+		cb.u.fields = [][]byte{[]byte("_id"), []byte("t")}
+		k := r.Range(1, 2)
+		var ins []MergeIn
+		for j := 0; j < k; j++ {
+			n := adaptiveN(r)
+			if k == 2 {
+				n = n/2 + 10
+			}
+			docs := cb.adaptiveBatch(n, fmt.Sprintf("s%d-", j))
+			api := "pub"
+			if r.Chance(1, 3) {
+				api = "hook"
+			}
+			sg := cb.addBuild(docs, 1025, api)
+			// deletions that move a term's cardinality across a multiple of 1024
+			var drops []uint32
+			p := r.Range(1, 6)
+			for d := 0; d < n; d++ {
+				if r.Chance(p, 12) {
+					drops = append(drops, uint32(d))
+				}
+			}
+			ins = append(ins, MergeIn{Seg: sg, Drops: drops})
+		}
+		api := "pub"
+		if r.Chance(1, 3) {
+			api = "hook"
+		}
+		final := cb.addMerge(ins, 1025, api, bufSize(r))
+		cb.adaptiveQueries(final)
+		cb.q("docnums", itoa(final))
+		if withRebuild {
+			rb := cb.addBuild(cb.docs[final], 1025, "hook")
+			cb.same(final, rb, "rebuild")
+		}
+		out = append(out, genOut{cb.c, true, "adaptive-merge"})
+	}
+	return out
+}
+
+// copyPathMerge: segments with identical field lists merged without deletions (the byte-copy path
+// of the stored section), with sizes that make the destination's 128-document blocks end inside
+// a source block.
+func genCopyPath(prop string, seed uint64, count int) []genOut {
+	var out []genOut
+	for i := 0; i < count; i++ {
+		r := NewRng(seed, prop+"-copypath", uint64(i))
+		cb := newCaseBuilder(caseID(prop+"cp", seed, i), r)
+		cb.u.fields = [][]byte{[]byte("_id"), []byte("a")}
+		k := r.Range(2, 4)
+		var ins []MergeIn
+		for j := 0; j < k; j++ {
+			n := []int{100, 60, 29, 130, 1, 127, 200, 70}[r.Intn(8)] + r.Intn(5)
+			docs := make([]Doc, n)
+			for d := range docs {
+				id := []byte(fmt.Sprintf("s%d-%d", j, d))
+				docs[d] = Doc{
+					{Name: []byte("_id"), Length: 1, Store: true, Value: id, Terms: []TermOcc{{Term: id, Freq: 1}}},
+					{Name: []byte("a"), Length: 1, Store: r.Chance(2, 3), Value: randBytes(r, r.Intn(30)), Terms: []TermOcc{{Term: []byte("w"), Freq: 1}}},
+				}
+			}
+			m, api := blockMode(r)
+			sg := cb.addBuild(docs, m, api)
+			in := MergeIn{Seg: sg, Nil: r.Chance(1, 2)}
+			if !in.Nil {
+				in.Drops = []uint32{}
+				if j == 0 && r.Chance(1, 4) {
+					in.Drops = []uint32{0, 3}
+				}
+			}
+			ins = append(ins, in)
+		}
+		m, api := mergeMode(r)
+		final := cb.addMerge(ins, m, api, bufSize(r))
+		n := cb.n[final]
+		for d := 0; d < n; d++ {
+			cb.q("stored", itoa(final), itoa(d), "-1")
+		}
+		cb.q("docnums", itoa(final))
+		cb.q("count", itoa(final))
+		out = append(out, genOut{cb.c, true, "copypath"})
 	}
 	return out
 }
